@@ -140,6 +140,20 @@ fn before_start_probe() -> GenStream {
     s
 }
 
+/// A stream that copies the *whole* window preceding its own start to the output (126 + 2 matches
+/// at distance 32768): whatever a reset left anywhere in the 32 KiB window becomes visible.
+fn before_start_window_dump() -> GenStream {
+    let mut b = StreamBuilder::new(None);
+    b.pre_window_zero = true;
+    let mut t: Vec<Token> = (0..126).map(|_| Token::Match { len: 258, dist: 32768 }).collect();
+    t.push(Token::Match { len: 130, dist: 32768 });
+    t.push(Token::Match { len: 130, dist: 32768 });
+    b.fixed(&t, true);
+    let mut s = b.finish();
+    s.desc = "before-start-window-dump".into();
+    s
+}
+
 // ---------------------------------------------------------------------------------------
 
 pub fn run(tier: &str) -> i32 {
@@ -340,7 +354,7 @@ pub fn run(tier: &str) -> i32 {
             }
         }
     }
-    let mut iprobes: Vec<GenStream> = vec![before_start_probe()];
+    let mut iprobes: Vec<GenStream> = vec![before_start_probe(), before_start_window_dump()];
     {
         let cc = corpus::compact_corpus(true);
         iprobes.push(cc.iter().rev().find(|s| !s.zlib && s.plain.len() > 4).unwrap().clone());
@@ -392,11 +406,12 @@ pub fn run(tier: &str) -> i32 {
     let ires = par_for(ihists.len(), || (0u64, 0u64), |hi, acc| {
         watchdog::tick(hi as u64, 1);
         let h = &ihists[hi];
-        if !th && hi % 2 == 1 {
-            return;
-        }
         for (ri, rname) in resets.iter().enumerate() {
             for (pi, p) in iprobes.iter().enumerate() {
+                // quick: every history meets the window probes, every other one the full probe set
+                if !th && hi % 2 == 1 && !p.desc.starts_with("before-start") {
+                    continue;
+                }
                 let pf = if p.zlib { DataFormat::Zlib } else { DataFormat::Raw };
                 // MinReset / ZeroReset keep the format: probe only with a stream of the history's format
                 let hist_fmt = FMTS[h.fmt as usize];
@@ -430,7 +445,7 @@ pub fn run(tier: &str) -> i32 {
                             acc.1 += calls as u64 * 2;
                             if !same {
                                 rep.violation(
-                                    &format!("C18/InflateState/{}/probe={}", rname, if pi == 0 { "before-start-reference".to_string() } else { format!("stream{}", pi) }),
+                                    &format!("C18/InflateState/{}/probe={}", rname, if p.desc.starts_with("before-start") { "before-start-reference".to_string() } else { format!("stream{}", pi) }),
                                     format!("after history {:?} on [{}] ({:?}) and {}, decoding [{}] (chunk {}, room {}, finish {}) differs from a fresh InflateState", h.calls, streams[h.stream].desc, hist_fmt as i32, rname, p.desc, chunk as isize, room, finish),
                                     json!({"kind": "inf", "hist_stream_hex": if streams[h.stream].bytes.len() < 2000 { json!(hex(&streams[h.stream].bytes)) } else { Value::Null }, "hist_fmt": h.fmt, "hist_calls": h.calls, "reset": rname, "probe_hex": if p.bytes.len() < 2000 { json!(hex(&p.bytes)) } else { Value::Null }, "probe_zlib": p.zlib, "chunk": chunk.min(1 << 40), "room": room, "finish": finish}),
                                 );
@@ -447,7 +462,7 @@ pub fn run(tier: &str) -> i32 {
     let mut dcases = 0u64;
     for h in ihists.iter().step_by(if th { 1 } else { 3 }) {
         let s = &streams[h.stream];
-        for p in iprobes.iter().skip(1) {
+        for p in iprobes.iter().filter(|p| !p.desc.starts_with("before-start")) {
             dcases += 1;
             let r = guarded(|| {
                 let mut d = DecompressorOxide::new();
